@@ -433,7 +433,7 @@ def stream_set(rng, dc, fhs, quick):
             hs = [rng.randrange(3)] if rng.random() < 0.6 else [0, 1, 2]
             S.append(Stream(sid, st, k, plus, pol, hs)); sid += 1
     if n <= 400:
-        for plus in (False, True):
+        for plus in ((False,) if quick and n > 100 else (False, True)):
             S.append(Stream(sid, 0, 0, plus, 'safe_min', [0])); sid += 1
             S.append(Stream(sid, 0, 0, plus, 'small', [0, 1, 2])); sid += 1
     # the statement's hypothesis taken literally: the size admits exactly the next entry
@@ -468,6 +468,7 @@ def run_check(tier, seed):
         for fsname, (root, dcs) in trees.items():
             configs = [('passthrough', False), ('passthrough', True), ('vfs', False)]
             if not quick: configs.append(('vfs', True))
+            if quick and fsname != 'ext4': configs = configs[:2]
             for kind, noopendir in configs:
                 cfgdesc = {'fs': fsname, 'kind': kind, 'no_opendir': noopendir}
                 cl = FuseClient(os.path.join(bindir, 'readdir'))
@@ -562,7 +563,10 @@ def run_check(tier, seed):
     ev.cov['rule'] = ('evaluations = READDIR/READDIRPLUS requests sent through Server::handle_message (each judged by the property predicate and replayed in the Coq model) '
                       '+ reference-count probes; distinct_nontrivial = distinct (directory, fs kind, no_opendir, plus, size, offset==0, entries returned) with a non-empty reply')
     ev.cov['samples'] = samples
-    return finish(ev, PROP, dedup(findings), broken)
+    findings = dedup(findings)
+    for f in findings: f.setdefault('input', {}).update({'seed': seed, 'tier': tier})
+    for b in broken: b.update({'seed': seed, 'tier': tier})
+    return finish(ev, PROP, findings, broken)
 
 def dedup(findings):
     seen = {}; out = []
@@ -607,3 +611,15 @@ def pseudo_cases(cl, rng, cfgdesc, exprs, expr_meta):
         exprs.append(('pseudo', '(pseudo_hist_check %s [%s])' % (ch, cases)))
         expr_meta.append({'dir': 'pseudo node %d' % nodeid, 'config': cfgdesc, 'n_requests': len(hist)})
     return F, B, n
+
+
+def replay(path):
+    """re-run the check with the seed and tier recorded in a replay file: the generated trees, requests and
+    (hash-based) directory cookies are functions of the seed, so the failing input is produced again"""
+    r = json.load(open(path))
+    items = r.get('failing') or r.get('broken') or []
+    seed, tier = 1, 'quick'
+    for it in items:
+        src = it.get('input', it)
+        if 'seed' in src: seed, tier = src['seed'], src['tier']; break
+    return run_check(tier, seed)
